@@ -62,6 +62,17 @@ namespace occa {
     }
 
     void leftUnaryOpNode::print(printer &pout) const {
+      // - -a, + +a, - --a, & &a: without a blank the two operators are read
+      // back as one token (--a, ++a, ---a, &&a)
+      const std::string valueStr = value->toString();
+      if (op.str.size() && valueStr.size()) {
+        const char lastOpChar = op.str[op.str.size() - 1];
+        if ((lastOpChar == valueStr[0])
+            && ((lastOpChar == '+') || (lastOpChar == '-') || (lastOpChar == '&'))) {
+          pout << op << ' ' << *value;
+          return;
+        }
+      }
       pout << op << *value;
     }
 
